@@ -256,6 +256,7 @@ const everyKeyC = `on:
     inputs:
       a:
         type: string
+        required: ${{ true }}
       b:
         type: number
       c:
